@@ -63,6 +63,33 @@ def run(ctx):
             if bad:
                 i, r, a, b = bad[0]
                 ctx.first_a_mismatch = {"req": r, "impl": a, "model": b}
+                # failing-input search: the circuits of the runs in which a traced step disagrees with the model (they are
+                # spelled out in the `shot` lines that follow the steps of a run) get their own Born statistics below
+                cands = []
+                for (i, r, a, b) in bad:
+                    if i < 0:
+                        continue
+                    for j in range(i, min(i + 200, len(reqs))):
+                        f = [x.strip() for x in reqs[j].split(" | ")]
+                        if f[0] == "shot" and len(f) >= 5:
+                            ops, rep = f[2], ("stabilizer" if f[4].startswith("T") else "vector")
+                            toks = ops.replace(";", " ").split()
+                            in_f = not any(t in ("peek", "peekall", "resetall") for t in toks) and not (rep == "stabilizer" and "reset" in toks)
+                            nc = 1 + max([0] + [int(t) for t in toks if t.isdigit()])
+                            if in_f and (rep, f[1], ops) not in [c[:3] for c in cands]:
+                                cands.append((rep, f[1], ops, str(min(nc, 64))))
+                                # the same circuit followed by a measurement of every qubit in every combination of bases: a wrong sign or
+                                # a wrong collapse that the circuit's own measurements do not expose shows up there
+                                nq = int(f[1])
+                                if 0 < nq <= 3:
+                                    import itertools
+                                    for combo in itertools.product("ZXY", repeat=nq):
+                                        tail = " ; ".join("measure %d %d %s" % (q, q, b) for q, b in enumerate(combo))
+                                        cands.append((rep, f[1], ops + " ; " + tail, str(min(max(nc, nq), 64))))
+                            break
+                    if len(cands) >= 60:
+                        break
+                ctx.search_candidates = cands
     # (B) statistics of the implementation against the exact Born distribution
     hreqs = himpl = []
     if vlib.cargo_build(ctx, "c01"):
@@ -72,6 +99,18 @@ def run(ctx):
         ctx.oblige("histogram harness run completes", rc == 0, out[-300:])
         if rc == 0:
             hreqs, himpl = vlib.read_lines(os.path.join(hdir, "req.txt")), vlib.read_lines(os.path.join(hdir, "impl.txt"))
+        cands = getattr(ctx, "search_candidates", [])
+        if cands:
+            sdir = os.path.join(ctx.rundir, "search")
+            os.makedirs(sdir, exist_ok=True)
+            args = []
+            for rep, nq, ops, nc in cands:
+                args += ["one", rep, nq, nc, ops]
+            rc2, out2 = vlib.run_harness(ctx, "c01", args, outdir=sdir)
+            if rc2 == 0:
+                hreqs = hreqs + vlib.read_lines(os.path.join(sdir, "req.txt"))
+                himpl = himpl + vlib.read_lines(os.path.join(sdir, "impl.txt"))
+                ctx.note("failing-input search: Born statistics on %d circuits whose traces disagree with the model" % len(cands))
     items = []
     for r, a in zip(hreqs, himpl):
         tag = None
